@@ -3,9 +3,14 @@
    exec / Kill), over-approximating every environment: any message kind at any
    time, signals, input, input errors, EOF, Kill, context cancellation, panics
    in every callback, both startup failures.  Every blocking channel operation
-   carries a guard flag taken from the GENERATED inventory (gen/ChanOps.v,
-   gen/Lifecycle.v) saying whether the source gives it a cancellation
-   alternative.  No proofs in this file. *)
+   carries a guard flag computed from the GENERATED inventories
+   (gen/ChanOps.v, gen/Lifecycle.v, gen/Signals.v; see Model/SkelTie.v) saying
+   whether the source gives it a cancellation alternative.
+   Ghost fields (never read by a transition guard): dec = the exit decision
+   the Run thread took, ext = an external cause (Kill, cancellation of the
+   supplied context, a panicking command) has struck, restored_last = the last
+   mode-affecting action of the Run thread was restoreTerminalState.
+   No proofs in this file. *)
 From Coq Require Import List Bool Arith.
 Import ListNotations.
 
@@ -13,6 +18,8 @@ Inductive mkind := MkUser | MkQuit | MkInt | MkBatch | MkExec.
 Inductive exitr := XrNil | XrInt | XrReadErr | XrCtx.
 Inductive err := ENil | EInt | EReadErr | EKilled | EOther | ENilAfterPanic.
 Inductive phase := Sd0 | Sd1 | Sd2 | Sd3 | Sd4 | Sd5.
+(* the exit decision (ghost) *)
+Inductive decision := DNone | DQuit | DInt | DReadErr | DCtx | DPanic | DStartFail.
 
 Inductive runpc :=
 | RPre | RStartup | RInitCb | RView0Cb | RInitReader | RSelect
@@ -31,13 +38,13 @@ Inductive tkpc := TkNs | TkListen | TkDone.                       (* renderer ti
 Inductive kxpc := KxNone | KxSd (p : phase) | KxDone.             (* an external shutdown caller: Kill / panicking command *)
 Inductive finst := Fin0 | Fin1 | FinClosed.
 
-Record skel := {
+Record skel := mk_skel {
   run : runpc; cd : cdpc; sg : sigpc; ifw : ifwpc; rd : rdpc; tk : tkpc; once : bool; kx : kxpc;
-  ctx : bool; ign : bool; fin : finst; restored_last : bool
+  ctx : bool; ign : bool; fin : finst; restored_last : bool; dec : decision; ext : bool; nosig : bool
 }.
 
 (* guards extracted from the source *)
-Record guards := {
+Record guards := mk_guards {
   g_cmd_send : bool;             (* eventLoop: cmds <- cmd after Update has a ctx alternative *)
   g_batch_send : bool;           (* eventLoop: cmds <- cmd in the BatchMsg loop has a ctx alternative *)
   g_sig_send : bool;             (* handleSignals: delivering Interrupt/Quit gives up on ctx.Done *)
@@ -51,62 +58,83 @@ Record guards := {
   g_ifw_send : bool;             (* Init forwarder: cmds <- initCmd has a ctx alternative *)
   g_cd_recv : bool;              (* handleCommands selects on ctx.Done *)
   g_sig_recv : bool;             (* handleSignals selects on ctx.Done while waiting for a signal *)
-  g_wait_read_timeout : bool     (* waitForReadLoop has a timeout alternative *)
+  g_wait_read_timeout : bool;    (* waitForReadLoop has a timeout alternative *)
+  g_sig_loops : bool;            (* handleSignals keeps waiting after an ignored signal *)
+  g_sig_honours_ignore : bool;   (* handleSignals tests ignoreSignals before forwarding *)
+  g_sig_int_is_interrupt : bool; (* SIGINT -> InterruptMsg, anything else -> QuitMsg *)
+  g_shutdown_cancels_first : bool;(* shutdown calls p.cancel() before waiting for the handlers *)
+  g_shutdown_restores : bool;    (* shutdown ends with restoreTerminalState, unconditionally *)
+  g_killed_wraps : bool;         (* Run: killed := ctx.Err()!=nil || err!=nil; killed && err==nil => ErrProgramKilled *)
+  g_quit_nil : bool;             (* dispatch: QuitMsg => return model, nil *)
+  g_int_err : bool;              (* dispatch: InterruptMsg => return model, ErrInterrupted *)
+  g_loop_ctx_nil : bool;         (* eventLoop: <-ctx.Done() => return model, nil (turned into killed by Run) *)
+  g_loop_err : bool;             (* eventLoop: err := <-p.errs => return model, err *)
+  g_release_ignores : bool;      (* ReleaseTerminal sets ignoreSignals, RestoreTerminal clears it *)
+  g_release_stops_reader : bool; (* ReleaseTerminal cancels the reader and waits for the read loop *)
+  g_release_stops_renderer : bool;(* ReleaseTerminal stops the renderer (ticker handshake) before restoring the terminal *)
+  g_restore_keeps_nosig : bool   (* RestoreTerminal does not re-enable signals that WithoutSignals switched off *)
 }.
 
 Inductive ekind := KRt | KEnv | KCbEnd | KBatchMore.
 
-Definition upd_run (s : skel) (r : runpc) : skel :=
-  {| run := r; cd := cd s; sg := sg s; ifw := ifw s; rd := rd s; tk := tk s; once := once s; kx := kx s;
-     ctx := ctx s; ign := ign s; fin := fin s; restored_last := restored_last s |}.
+Definition set_run (s : skel) (x : runpc) : skel :=
+  mk_skel x (cd s) (sg s) (ifw s) (rd s) (tk s) (once s) (kx s) (ctx s) (ign s) (fin s) (restored_last s) (dec s) (ext s) (nosig s).
+Definition set_cd (s : skel) (x : cdpc) : skel :=
+  mk_skel (run s) x (sg s) (ifw s) (rd s) (tk s) (once s) (kx s) (ctx s) (ign s) (fin s) (restored_last s) (dec s) (ext s) (nosig s).
+Definition set_sg (s : skel) (x : sigpc) : skel :=
+  mk_skel (run s) (cd s) x (ifw s) (rd s) (tk s) (once s) (kx s) (ctx s) (ign s) (fin s) (restored_last s) (dec s) (ext s) (nosig s).
+Definition set_ifw (s : skel) (x : ifwpc) : skel :=
+  mk_skel (run s) (cd s) (sg s) x (rd s) (tk s) (once s) (kx s) (ctx s) (ign s) (fin s) (restored_last s) (dec s) (ext s) (nosig s).
+Definition set_rd (s : skel) (x : rdpc) : skel :=
+  mk_skel (run s) (cd s) (sg s) (ifw s) x (tk s) (once s) (kx s) (ctx s) (ign s) (fin s) (restored_last s) (dec s) (ext s) (nosig s).
+Definition set_tk (s : skel) (x : tkpc) (o : bool) : skel :=
+  mk_skel (run s) (cd s) (sg s) (ifw s) (rd s) x o (kx s) (ctx s) (ign s) (fin s) (restored_last s) (dec s) (ext s) (nosig s).
+Definition set_kx (s : skel) (x : kxpc) : skel :=
+  mk_skel (run s) (cd s) (sg s) (ifw s) (rd s) (tk s) (once s) x (ctx s) (ign s) (fin s) (restored_last s) (dec s) (ext s) (nosig s).
+Definition set_ctx (s : skel) (x : bool) : skel :=
+  mk_skel (run s) (cd s) (sg s) (ifw s) (rd s) (tk s) (once s) (kx s) x (ign s) (fin s) (restored_last s) (dec s) (ext s) (nosig s).
+Definition set_ign (s : skel) (x : bool) : skel :=
+  mk_skel (run s) (cd s) (sg s) (ifw s) (rd s) (tk s) (once s) (kx s) (ctx s) x (fin s) (restored_last s) (dec s) (ext s) (nosig s).
+Definition set_fin (s : skel) (x : finst) : skel :=
+  mk_skel (run s) (cd s) (sg s) (ifw s) (rd s) (tk s) (once s) (kx s) (ctx s) (ign s) x (restored_last s) (dec s) (ext s) (nosig s).
+Definition set_rl (s : skel) (x : bool) : skel :=
+  mk_skel (run s) (cd s) (sg s) (ifw s) (rd s) (tk s) (once s) (kx s) (ctx s) (ign s) (fin s) x (dec s) (ext s) (nosig s).
+Definition set_dec (s : skel) (x : decision) : skel :=
+  mk_skel (run s) (cd s) (sg s) (ifw s) (rd s) (tk s) (once s) (kx s) (ctx s) (ign s) (fin s) (restored_last s) x (ext s) (nosig s).
+Definition set_ext (s : skel) (x : bool) : skel :=
+  mk_skel (run s) (cd s) (sg s) (ifw s) (rd s) (tk s) (once s) (kx s) (ctx s) (ign s) (fin s) (restored_last s) (dec s) x (nosig s).
 
 Definition handlers_done (s : skel) : bool :=
   (match sg s with SgOff | SgDone => true | _ => false end) &&
   (match ifw s with IfNone | IfDone => true | _ => false end) &&
   (match cd s with CdNs | CdDone => true | _ => false end).
 
-Definition next_phase (p : phase) : phase :=
-  match p with Sd0 => Sd1 | Sd1 => Sd2 | Sd2 => Sd3 | Sd3 => Sd4 | Sd4 => Sd5 | Sd5 => Sd5 end.
-
 (* one step of a shutdown() caller.  who = true: the Run thread; false: the external caller.
    Returns the successor (at most one). *)
 Definition sd_step (G : guards) (s : skel) (who : bool) (p : phase) (kill : bool) (e : err) : list skel :=
-  let setph (s' : skel) (p' : phase) : skel :=
-    if who then upd_run s' (RSd p' kill e)
-    else {| run := run s'; cd := cd s'; sg := sg s'; ifw := ifw s'; rd := rd s'; tk := tk s'; once := once s'; kx := KxSd p';
-            ctx := ctx s'; ign := ign s'; fin := fin s'; restored_last := restored_last s' |} in
+  let setph (s' : skel) (p' : phase) : skel := if who then set_run s' (RSd p' kill e) else set_kx s' (KxSd p') in
   match p with
-  | Sd0 => (* p.cancel() *)
-    [setph {| run := run s; cd := cd s; sg := sg s; ifw := ifw s; rd := rd s; tk := tk s; once := once s; kx := kx s;
-              ctx := true; ign := ign s; fin := fin s; restored_last := restored_last s |} Sd1]
+  | Sd0 => (* p.cancel() -- or, when the source no longer cancels first, straight to the wait *)
+    [setph (if g_shutdown_cancels_first G then set_ctx s true else s) Sd1]
   | Sd1 => (* p.handlers.shutdown(): wait for signal handler, Init forwarder, command dispatcher *)
     if handlers_done s then [setph s Sd2] else []
   | Sd2 => (* cancelReader.Cancel(); waitForReadLoop (timeout); Close *)
-    let s' := match rd s with
-              | RdReading => {| run := run s; cd := cd s; sg := sg s; ifw := ifw s; rd := RdDone; tk := tk s; once := once s; kx := kx s;
-                                ctx := ctx s; ign := ign s; fin := fin s; restored_last := restored_last s |}
-              | _ => s end in
+    let s' := match rd s with RdReading => set_rd s RdDone | _ => s end in
     if g_wait_read_timeout G || (match rd s with RdNone | RdDone | RdReading => true | _ => false end)
     then [setph s' Sd3] else []
   | Sd3 => (* renderer.kill()/stop(): once.Do(done <- struct{}{}) needs the listener *)
     if once s then [setph s Sd4]
     else match tk s with
-         | TkListen => [setph {| run := run s; cd := cd s; sg := sg s; ifw := ifw s; rd := rd s; tk := TkDone; once := true; kx := kx s;
-                                 ctx := ctx s; ign := ign s; fin := fin s; restored_last := restored_last s |} Sd4]
+         | TkListen => [setph (set_tk s TkDone true) Sd4]
          | _ => []
          end
   | Sd4 => (* restoreTerminalState *)
-    [setph (if who then {| run := run s; cd := cd s; sg := sg s; ifw := ifw s; rd := rd s; tk := tk s; once := once s; kx := kx s;
-                           ctx := ctx s; ign := ign s; fin := fin s; restored_last := true |} else s) Sd5]
+    [setph (if who && g_shutdown_restores G then set_rl s true else s) Sd5]
   | Sd5 => (* release Wait callers; return *)
     let finish (f : finst) : skel :=
-      if who then
-        {| run := RReturned e; cd := cd s; sg := sg s; ifw := ifw s; rd := rd s; tk := tk s; once := once s; kx := kx s;
-           ctx := ctx s || g_run_defers_cancel G; ign := ign s;
-           fin := if g_run_defers_finish G then FinClosed else f; restored_last := restored_last s |}
-      else
-        {| run := run s; cd := cd s; sg := sg s; ifw := ifw s; rd := rd s; tk := tk s; once := once s; kx := KxDone;
-           ctx := ctx s; ign := ign s; fin := f; restored_last := restored_last s |} in
+      if who then set_fin (set_ctx (set_run s (RReturned e)) (ctx s || g_run_defers_cancel G))
+                          (if g_run_defers_finish G then FinClosed else f)
+      else set_fin (set_kx s KxDone) f in
     if g_fin_broadcast G then [finish FinClosed]
     else if kill then [finish (fin s)]
     else match fin s with
@@ -116,9 +144,8 @@ Definition sd_step (G : guards) (s : skel) (who : bool) (p : phase) (kill : bool
   end.
 
 Definition early_return (G : guards) (s : skel) (e : err) : skel :=
-  {| run := RReturned e; cd := cd s; sg := sg s; ifw := ifw s; rd := rd s; tk := tk s; once := once s; kx := kx s;
-     ctx := ctx s || g_run_defers_cancel G; ign := ign s;
-     fin := if g_run_defers_finish G then FinClosed else fin s; restored_last := restored_last s |}.
+  set_fin (set_ctx (set_run s (RReturned e)) (ctx s || g_run_defers_cancel G))
+          (if g_run_defers_finish G then FinClosed else fin s).
 
 Definition all_kinds : list mkind := [MkUser; MkQuit; MkInt; MkBatch; MkExec].
 
@@ -128,122 +155,161 @@ Definition is_cb (r : runpc) : bool :=
 Definition started (r : runpc) : bool :=
   match r with RPre | RStartup | RInitCb | RView0Cb | RInitReader => false | _ => true end.
 
+Definition is_returned (s : skel) : bool := match run s with RReturned _ => true | _ => false end.
+
+(* the error Run computes from what eventLoop returned (tea.go: killed := ...) *)
+Definition run_error (G : guards) (s : skel) (e : exitr) : bool * err :=
+  let loop_err := match e with
+                  | XrNil => if g_quit_nil G then ENil else EOther
+                  | XrInt => if g_int_err G then EInt else ENil
+                  | XrReadErr => if g_loop_err G then EReadErr else ENil
+                  | XrCtx => if g_loop_ctx_nil G then ENil else EOther
+                  end in
+  let killed := ctx s || negb (match loop_err with ENil => true | _ => false end) in
+  (killed, match loop_err with
+           | ENil => if killed then (if g_killed_wraps G then EKilled else ENil) else ENil
+           | x => x end).
+
 (* all transitions enabled in s *)
 Definition steps (G : guards) (s : skel) : list (ekind * skel) :=
-  let S (r : runpc) := upd_run s r in
-  let withf cd' sg' ifw' rd' tk' once' kx' ctx' ign' rl' r' :=
-    {| run := r'; cd := cd'; sg := sg'; ifw := ifw'; rd := rd'; tk := tk'; once := once'; kx := kx';
-       ctx := ctx'; ign := ign'; fin := fin s; restored_last := rl' |} in
+  let S (r : runpc) := set_run s r in
   (* ---- the Run thread *)
   (match run s with
    | RPre => [(KEnv, S RStartup)]
    | RStartup =>
-     [(KEnv, early_return G s EOther);                        (* openInputTTY / initTerminal failed: nothing changed yet *)
-      (KRt, withf (cd s) (sg s) (ifw s) (rd s) TkListen (once s) (kx s) (ctx s) (ign s) false RInitCb)]
-   | RInitCb =>
-     [(KCbEnd, S RView0Cb);
-      (KCbEnd, withf (cd s) (sg s) IfWait (rd s) (tk s) (once s) (kx s) (ctx s) (ign s) (restored_last s) RView0Cb)]
+     [(KEnv, set_dec (early_return G s EOther) DStartFail);     (* openInputTTY / initTerminal failed: nothing changed yet *)
+      (KRt, set_rl (set_tk (S RInitCb) TkListen false) false)]
+   | RInitCb => [(KCbEnd, S RView0Cb); (KCbEnd, set_ifw (S RView0Cb) IfWait)]
    | RView0Cb => [(KCbEnd, S RInitReader)]
    | RInitReader =>
-     [(KRt, withf CdSelect (sg s) (ifw s) RdNone (tk s) (once s) (kx s) (ctx s) (ign s) (restored_last s) RSelect);
-      (KRt, withf CdSelect (sg s) (ifw s) RdReading (tk s) (once s) (kx s) (ctx s) (ign s) (restored_last s) RSelect);
-      (KEnv, if g_startup_fail_restores G then S (RSd Sd0 true EOther) else early_return G s EOther)]
+     [(KRt, set_cd (set_rd (S RSelect) RdNone) CdSelect);
+      (KRt, set_cd (set_rd (S RSelect) RdReading) CdSelect);
+      (KEnv, set_dec (if g_startup_fail_restores G then S (RSd Sd0 true EOther) else early_return G s EOther) DStartFail)]
    | RSelect =>
-     (if ctx s then [(KRt, S (RExit XrCtx))] else []) ++
-     (match rd s with RdSendErr => [(KRt, withf (cd s) (sg s) (ifw s) RdDone (tk s) (once s) (kx s) (ctx s) (ign s) (restored_last s) (RExit XrReadErr))] | _ => [] end) ++
+     (if ctx s then [(KRt, set_dec (S (RExit XrCtx)) DCtx)] else []) ++
+     (match rd s with RdSendErr => [(KRt, set_dec (set_rd (S (RExit XrReadErr)) RdDone) DReadErr)] | _ => [] end) ++
      map (fun k => (KEnv, S (RFilterCb k))) all_kinds ++
      (match sg s with
-      | SgSendInt => [(KRt, withf (cd s) SgDone (ifw s) (rd s) (tk s) (once s) (kx s) (ctx s) (ign s) (restored_last s) (RFilterCb MkInt))]
-      | SgSendQuit => [(KRt, withf (cd s) SgDone (ifw s) (rd s) (tk s) (once s) (kx s) (ctx s) (ign s) (restored_last s) (RFilterCb MkQuit))]
+      | SgSendInt => [(KRt, set_sg (S (RFilterCb MkInt)) SgDone)]
+      | SgSendQuit => [(KRt, set_sg (S (RFilterCb MkQuit)) SgDone)]
       | _ => [] end) ++
-     (match rd s with RdSendMsg => [(KRt, withf (cd s) (sg s) (ifw s) RdReading (tk s) (once s) (kx s) (ctx s) (ign s) (restored_last s) (RFilterCb MkUser))] | _ => [] end)
+     (match rd s with RdSendMsg => [(KRt, set_rd (S (RFilterCb MkUser)) RdReading)] | _ => [] end)
    | RFilterCb _ => (KCbEnd, S RSelect) :: map (fun k => (KCbEnd, S (RDispatch k))) all_kinds
    | RDispatch k =>
      [(KRt, match k with
-            | MkQuit => S (RExit XrNil)
-            | MkInt => S (RExit XrInt)
+            | MkQuit => set_dec (S (RExit XrNil)) DQuit
+            | MkInt => set_dec (S (RExit XrInt)) DInt
             | MkBatch => S RBatchAfter
             | MkExec => S RExecRelease
-            | MkUser => withf (cd s) (sg s) (ifw s) (rd s) (tk s) (once s) (kx s) (ctx s) (ign s) false RUpdateCb
+            | MkUser => set_rl (S RUpdateCb) false
             end)]
    | RBatch =>
      (match cd s with CdSelect => [(KRt, S RBatchAfter)] | _ => [] end) ++
-     (if g_batch_send G && ctx s then [(KRt, S (RExit XrCtx))] else [])
+     (if g_batch_send G && ctx s then [(KRt, set_dec (S (RExit XrCtx)) DCtx)] else [])
    | RBatchAfter => [(KBatchMore, S RBatch); (KCbEnd, S RSelect)]
    | RUpdateCb => [(KCbEnd, S RCmdSend)]
    | RCmdSend =>
      (match cd s with CdSelect => [(KRt, S RViewCb)] | _ => [] end) ++
-     (if g_cmd_send G && ctx s then [(KRt, S (RExit XrCtx))] else [])
+     (if g_cmd_send G && ctx s then [(KRt, set_dec (S (RExit XrCtx)) DCtx)] else [])
    | RViewCb => [(KCbEnd, S RSelect)]
    | RExecRelease =>
      (* ReleaseTerminal: ignoreSignals=1, cancel reader + wait, renderer.stop (handshake), restoreTerminalState *)
-     let rd' := match rd s with RdReading => RdDone | x => x end in
-     if once s then [(KRt, withf (cd s) (sg s) (ifw s) rd' (tk s) true (kx s) (ctx s) true true RExecRun)]
+     let s1 := if g_release_ignores G then set_ign s true else s in
+     let s2 := if g_release_stops_reader G then (match rd s1 with RdReading => set_rd s1 RdDone | _ => s1 end) else s1 in
+     let fin_ := fun s3 => [(KRt, set_rl (set_run s3 RExecRun) true)] in
+     if negb (g_release_stops_renderer G) then fin_ s2
+     else if once s then fin_ s2
      else match tk s with
-          | TkListen => [(KRt, withf (cd s) (sg s) (ifw s) rd' TkDone true (kx s) (ctx s) true true RExecRun)]
+          | TkListen => fin_ (set_tk s2 TkDone true)
           | _ => []
           end
    | RExecRun => [(KCbEnd, S RExecRestore)]
    | RExecRestore =>
-     [(KRt, withf (cd s) (sg s) (ifw s) (match rd s with RdNone => RdNone | _ => RdReading end) TkListen false (kx s) (ctx s) false false RUpdateCb)]
+     (* RestoreTerminal: ignoreSignals=0, initTerminal, initCancelReader, modes, renderer.start *)
+     [(KRt, set_rl (set_tk (set_ign (set_rd (S RUpdateCb) (match rd s with RdNone => RdNone | RdSendMsg => RdSendMsg | RdSendErr => RdSendErr | _ => RdReading end))
+                                    (if g_release_ignores G then (g_restore_keeps_nosig G && nosig s) else ign s)) TkListen false) false)]
    | RExit e =>
-     let killed := ctx s || match e with XrInt | XrReadErr => true | _ => false end in
-     [(KRt, match e, killed with
-            | XrNil, false => S RFinalViewCb
-            | _, _ => S (RSd Sd0 true (match e with XrInt => EInt | XrReadErr => EReadErr | _ => EKilled end))
-            end)]
+     let '(killed, er) := run_error G s e in
+     [(KRt, if negb killed && match er with ENil => true | _ => false end then S RFinalViewCb else S (RSd Sd0 killed er))]
    | RFinalViewCb => [(KCbEnd, S (RSd Sd0 false ENil))]
    | RSd p kill e => map (fun s' => (KRt, s')) (sd_step G s true p kill e)
    | RReturned _ => []
    end) ++
   (* a panic in a user callback executed by the Run thread: recovered, shutdown(true) *)
-  (if is_cb (run s) then [(KEnv, S (RSd Sd0 true (if g_panic_err G then EKilled else ENilAfterPanic)))] else []) ++
+  (if is_cb (run s) then [(KEnv, set_dec (S (RSd Sd0 true (if g_panic_err G then EKilled else ENilAfterPanic))) DPanic)] else []) ++
   (* ---- command dispatcher *)
   (match cd s with
    | CdSelect =>
-     (if g_cd_recv G && ctx s then [(KRt, withf CdDone (sg s) (ifw s) (rd s) (tk s) (once s) (kx s) (ctx s) (ign s) (restored_last s) (run s))] else []) ++
-     (match ifw s with IfWait => [(KRt, withf (cd s) (sg s) IfDone (rd s) (tk s) (once s) (kx s) (ctx s) (ign s) (restored_last s) (run s))] | _ => [] end)
+     (if g_cd_recv G && ctx s then [(KRt, set_cd s CdDone)] else []) ++
+     (match ifw s with IfWait => [(KRt, set_ifw s IfDone)] | _ => [] end)
    | _ => [] end) ++
   (* ---- Init forwarder *)
   (match ifw s with
-   | IfWait => if g_ifw_send G && ctx s then [(KRt, withf (cd s) (sg s) IfDone (rd s) (tk s) (once s) (kx s) (ctx s) (ign s) (restored_last s) (run s))] else []
+   | IfWait => if g_ifw_send G && ctx s then [(KRt, set_ifw s IfDone)] else []
    | _ => [] end) ++
   (* ---- signal handler *)
   (match sg s with
-   | SgNr => match run s with RPre => [] | _ => [(KRt, withf (cd s) SgWait (ifw s) (rd s) (tk s) (once s) (kx s) (ctx s) (ign s) (restored_last s) (run s))] end
+   | SgNr => match run s with RPre => [] | _ => [(KRt, set_sg s SgWait)] end
    | SgWait =>
-     (if g_sig_recv G && ctx s then [(KRt, withf (cd s) SgDone (ifw s) (rd s) (tk s) (once s) (kx s) (ctx s) (ign s) (restored_last s) (run s))] else []) ++
-     [(KEnv, withf (cd s) (if ign s then SgWait else SgSendInt) (ifw s) (rd s) (tk s) (once s) (kx s) (ctx s) (ign s) (restored_last s) (run s));
-      (KEnv, withf (cd s) (if ign s then SgWait else SgSendQuit) (ifw s) (rd s) (tk s) (once s) (kx s) (ctx s) (ign s) (restored_last s) (run s))]
+     let ignored := ign s && g_sig_honours_ignore G in
+     let after_ignored := if g_sig_loops G then SgWait else SgDone in
+     (if g_sig_recv G && ctx s then [(KRt, set_sg s SgDone)] else []) ++
+     [(KEnv, set_sg s (if ignored then after_ignored else if g_sig_int_is_interrupt G then SgSendInt else SgSendQuit));  (* SIGINT *)
+      (KEnv, set_sg s (if ignored then after_ignored else SgSendQuit))]                                                 (* SIGTERM *)
    | SgSendInt | SgSendQuit =>
-     if g_sig_send G && ctx s then [(KRt, withf (cd s) SgDone (ifw s) (rd s) (tk s) (once s) (kx s) (ctx s) (ign s) (restored_last s) (run s))] else []
+     if g_sig_send G && ctx s then [(KRt, set_sg s SgDone)] else []
    | _ => [] end) ++
   (* ---- read loop *)
   (match rd s with
    | RdReading =>
-     [(KEnv, withf (cd s) (sg s) (ifw s) RdSendMsg (tk s) (once s) (kx s) (ctx s) (ign s) (restored_last s) (run s));
-      (KEnv, withf (cd s) (sg s) (ifw s) RdSendErr (tk s) (once s) (kx s) (ctx s) (ign s) (restored_last s) (run s));
-      (KEnv, withf (cd s) (sg s) (ifw s) RdDone (tk s) (once s) (kx s) (ctx s) (ign s) (restored_last s) (run s))]   (* EOF: the loop just ends *)
-   | RdSendMsg => if g_rd_msg_send G && ctx s then [(KRt, withf (cd s) (sg s) (ifw s) RdDone (tk s) (once s) (kx s) (ctx s) (ign s) (restored_last s) (run s))] else []
-   | RdSendErr => if g_rd_err_send G && ctx s then [(KRt, withf (cd s) (sg s) (ifw s) RdDone (tk s) (once s) (kx s) (ctx s) (ign s) (restored_last s) (run s))] else []
+     [(KEnv, set_rd s RdSendMsg); (KEnv, set_rd s RdSendErr);
+      (KEnv, set_rd s RdDone)]   (* EOF: the loop just ends *)
+   | RdSendMsg => if g_rd_msg_send G && ctx s then [(KRt, set_rd s RdDone)] else []
+   | RdSendErr => if g_rd_err_send G && ctx s then [(KRt, set_rd s RdDone)] else []
    | _ => [] end) ++
   (* ---- an external shutdown caller (Kill, or a panicking command's recover) *)
   (match kx s with
-   | KxNone => if started (run s) && negb (match run s with RReturned _ => true | _ => false end)
-               then [(KEnv, withf (cd s) (sg s) (ifw s) (rd s) (tk s) (once s) (KxSd Sd0) (ctx s) (ign s) (restored_last s) (run s))] else []
+   | KxNone => if started (run s) && negb (is_returned s)
+               then [(KEnv, set_ext (set_kx s (KxSd Sd0)) true)] else []
    | KxSd p => map (fun s' => (KRt, s')) (sd_step G s false p true EKilled)
    | KxDone => [] end) ++
   (* ---- cancellation of the supplied context *)
-  (if negb (ctx s) && negb (match run s with RPre => true | _ => false end)
-   then [(KEnv, withf (cd s) (sg s) (ifw s) (rd s) (tk s) (once s) (kx s) true (ign s) (restored_last s) (run s))] else []).
+  (if negb (ctx s) && negb (match run s with RPre => true | _ => false end) && negb (is_returned s)
+   then [(KEnv, set_ext (set_ctx s true) true)] else []).
 
-Definition init_skel (sighandler : bool) : skel :=
-  {| run := RPre; cd := CdNs; sg := if sighandler then SgNr else SgOff; ifw := IfNone; rd := RdNone; tk := TkNs;
-     once := false; kx := KxNone; ctx := false; ign := false; fin := Fin0; restored_last := true |}.
+Definition init_skel (sighandler : bool) (ignore_signals : bool) : skel :=
+  mk_skel RPre CdNs (if sighandler then SgNr else SgOff) IfNone RdNone TkNs false KxNone false ignore_signals Fin0 true DNone false ignore_signals.
+
+Definition inits : list skel := [init_skel true false; init_skel true true; init_skel false false].
 
 (* a termination cause has struck *)
 Definition struck (s : skel) : bool :=
-  ctx s || (match run s with RExit _ | RSd _ _ _ | RReturned _ => true | _ => false end) ||
+  ctx s || (match run s with RExit _ | RFinalViewCb | RSd _ _ _ | RReturned _ => true | _ => false end) ||
   (match kx s with KxNone => false | _ => true end).
 
-Definition is_returned (s : skel) : bool := match run s with RReturned _ => true | _ => false end.
+(* restricted edges: runtime steps and returns of user callbacks *)
+Definition restricted (k : ekind) : bool := match k with KRt | KCbEnd => true | _ => false end.
+
+(* ---- what must hold at a returned state *)
+Definition err_is (a b : err) : bool :=
+  match a, b with ENil, ENil | EInt, EInt | EReadErr, EReadErr | EKilled, EKilled | EOther, EOther | ENilAfterPanic, ENilAfterPanic => true | _, _ => false end.
+
+(* the error class the property demands for an exit decision *)
+Definition error_ok (s : skel) : bool :=
+  match run s with
+  | RReturned e =>
+    match dec s with
+    | DQuit => if ext s then err_is e ENil || err_is e EKilled else err_is e ENil
+    | DInt => err_is e EInt
+    | DReadErr => err_is e EReadErr
+    | DCtx | DPanic => err_is e EKilled
+    | DStartFail => err_is e EOther
+    | DNone => false
+    end
+  | _ => true
+  end.
+
+Definition returned_ok (s : skel) : bool :=
+  if is_returned s then
+    error_ok s && restored_last s && ctx s && (match fin s with FinClosed => true | _ => false end)
+  else true.
